@@ -191,8 +191,8 @@ Definition parallel (labels : list nat) (order : list nat) (s0 : st) : par_resul
 Definition check_labels (seglabels ls : list nat) : bool :=
   forallb (fun l => negb (l =? 0) && mem l seglabels) ls.
 
-Definition finish (relabel : bool) (dtmax : option nat) (s : st) : outcome :=
-  if match dtmax with Some m => m <? maxlab s | None => false end then Err ValueErr
+Definition finish (relabel : bool) (dtmax : option Z) (s : st) : outcome :=
+  if match dtmax with Some m => (m <? Z.of_nat (maxlab s))%Z | None => false end then Err ValueErr
   else
     let outl := tabulate ny nx (out s) in
     if relabel then
@@ -217,7 +217,7 @@ Definition selected (npix : nat) (labels_arg : option (list nat)) : option (list
   end.
 
 Definition deblend_sources (inmap : dmap_t) (npix : nat) (labels_arg : option (list nat))
-    (nlevels : Z) (contrast : Z * Z) (mode_ok relabel : bool) (dtmax : option nat)
+    (nlevels : Z) (contrast : Z * Z) (mode_ok relabel : bool) (dtmax : option Z)
     (nproc : nat) (order : list nat) : outcome :=
   if (nlevels <? 1)%Z then Err ValueErr else
   let '(cn, cd) := contrast in          (* contrast = cn / cd, cd > 0 *)
@@ -288,7 +288,7 @@ Definition run_case (c : case) : outcome :=
   deblend_sources (Z.to_nat ny) (Z.to_nat nx) (nimg seg) (raw_of tab) (warns_of tab)
     (map (fun '(p, cs) => (Z.to_nat p, map Z.to_nat cs)) inmap) (Z.to_nat npix)
     (option_map (map Z.to_nat) labels_arg) nlevels contrast mode_ok relabel
-    (option_map Z.to_nat dtmax) (Z.to_nat nproc) (map Z.to_nat order).
+    dtmax (Z.to_nat nproc) (map Z.to_nat order).
 
 Definition pair_eqb {A B} (ea : A -> A -> bool) (eb : B -> B -> bool) (a b : A * B) : bool :=
   ea (fst a) (fst b) && eb (snd a) (snd b).
